@@ -1,0 +1,28 @@
+//go:build verif
+
+package bits
+
+// Additional clauses (property C18) for the bit writer, merged with the contract in verif_contracts.go. They restate the
+// C13 clauses without division and without quantifiers: at most 32 bits, hence at most 4 bytes, are written per call (wr1),
+// and the 12 bytes before the write position are unchanged (wrKeep; the AudioSpecificConfig encoder writes at most 10 bytes).
+// Quantifier-free clauses are what the solvers need to follow a sequence of ten Write calls.
+//@ pred wrKeep1(w *Writer, d int) = old(ghost(w.wr).wlen) >= d ==> ghost(w.wr).wdata[old(ghost(w.wr).wlen)-d] == old(ghost(w.wr).wdata[ghost(w.wr).wlen-d])
+//@ pred wrKeep(w *Writer) = wrKeep1(w, 1) && wrKeep1(w, 2) && wrKeep1(w, 3) && wrKeep1(w, 4) && wrKeep1(w, 5) && wrKeep1(w, 6) && wrKeep1(w, 7) && wrKeep1(w, 8) && wrKeep1(w, 9) && wrKeep1(w, 10) && wrKeep1(w, 11) && wrKeep1(w, 12)
+
+//@ func (*Writer).Write
+//@   ensures[C18] w.err == nil ==> w.n == (old(w.n)+n) & 7 && ghost(w.wr).wlen == old(ghost(w.wr).wlen) + (old(w.n)+n) >> 3
+//@   ensures[C18] w.err == nil && old(w.n)+n >= 8 ==> ghost(w.wr).wdata[old(ghost(w.wr).wlen)] == uint8(wX(old(w.v), bits, n) >> uint(old(w.n)+n-8))
+//@   ensures[C18] w.err == nil && old(w.n)+n >= 16 ==> ghost(w.wr).wdata[old(ghost(w.wr).wlen)+1] == uint8(wX(old(w.v), bits, n) >> uint(old(w.n)+n-16))
+//@   ensures[C18] w.err == nil && old(w.n)+n >= 24 ==> ghost(w.wr).wdata[old(ghost(w.wr).wlen)+2] == uint8(wX(old(w.v), bits, n) >> uint(old(w.n)+n-24))
+//@   ensures[C18] w.err == nil && old(w.n)+n >= 32 ==> ghost(w.wr).wdata[old(ghost(w.wr).wlen)+3] == uint8(wX(old(w.v), bits, n) >> uint(old(w.n)+n-32))
+//@   ensures[C18] w.err == nil ==> w.v & mask(w.n) == wX(old(w.v), bits, n) & mask(w.n)
+//@   ensures[C18] w.err == nil ==> wrKeep(w)
+
+//@ func (*Writer).Flush
+//@   ensures[C18] w.err == nil && old(w.n) != 0 ==> ghost(w.wr).wlen == old(ghost(w.wr).wlen)+1 && ghost(w.wr).wdata[old(ghost(w.wr).wlen)] == uint8((old(w.v) & mask(old(w.n))) << uint(8-old(w.n)))
+//@   ensures[C18] w.err == nil && old(w.n) == 0 ==> ghost(w.wr).wlen == old(ghost(w.wr).wlen)
+//@   ensures[C18] w.err == nil ==> wrKeep(w)
+
+// Frame of the slice writer's bit output (needed by callers that state which bytes they leave alone).
+//@ func (*FixedSliceWriter).WriteBits
+//@   assigns sw.off, sw.accError, sw.n, sw.v, sw.buf[:], ghost(sw).tr
